@@ -103,8 +103,28 @@ fn dec_whole(cx: &mut Ctx) {
         }
         // structured sweeps: every pointer of the longer forms
         match *name {
+            "ISO-2022-JP" => {
+                // every byte after each one-byte-set escape, every pair after the two-byte-set escapes
+                for esc in [[0x1Bu8, 0x28, 0x42], [0x1B, 0x28, 0x4A], [0x1B, 0x28, 0x49]] {
+                    for b in 0..=255u8 {
+                        let s = [esc[0], esc[1], esc[2], b];
+                        whole(cx, &hc(e, Mode::Off, if b % 2 == 0 { Sink::Utf16 } else { Sink::Utf8 }, b % 3 == 0), &s, false);
+                    }
+                }
+                for (k, esc) in [[0x1Bu8, 0x24, 0x42], [0x1B, 0x24, 0x40]].iter().enumerate() {
+                    for l in 0x21..=0x7Eu8 {
+                        for t in 0x21..=0x7Eu8 {
+                            if k == 1 && !cx.thorough && (l as usize + t as usize + cx.seed as usize) % 3 != 0 {
+                                continue;
+                            }
+                            let s = [esc[0], esc[1], esc[2], l, t];
+                            whole(cx, &hc(e, Mode::Off, if t % 2 == 0 { Sink::Utf16 } else { Sink::Utf8 }, false), &s, false);
+                        }
+                    }
+                }
+            }
             "EUC-JP" => {
-                let step = if cx.thorough { 1 } else { 3 };
+                let step = 1;
                 let mut i = cx.seed as usize % step;
                 for l in 0xA1..=0xFEu8 {
                     for t in 0xA1..=0xFEu8 {
@@ -117,7 +137,7 @@ fn dec_whole(cx: &mut Ctx) {
             }
             "gb18030" | "GBK" => {
                 // all four-byte range pointers 0..39419 (+ neighbours) and astral edges
-                let step = if cx.thorough { 1 } else { 7 };
+                let step = 1;
                 let mut p = cx.seed as usize % step;
                 let mut ps: Vec<usize> = Vec::new();
                 while p < 39500 {
